@@ -138,8 +138,8 @@ def lex_item(ctx, V, item):
     return tt, text
 
 
-def simulate(ctx, V, script, f, init):
-    """returns list of (kind, level_after, state) at each terminator, plus error string"""
+def _simulate_levels(ctx, V, script, f, init):
+    """returns list of (kind, split, level_after, state) at each terminator; drives _change_splitlevel alone (state from _reset)"""
     ev = ME.Evaluator(ctx, f.mod, f.cls)
     state = ME.Obj(_cls=f.cls, **copy.deepcopy(init))
     out = []
@@ -158,6 +158,67 @@ def simulate(ctx, V, script, f, init):
                         {k: v for k, v in state.__dict__.items() if k.startswith('_') and k != '_cls'}))
             if split:
                 state = ME.Obj(_cls=f.cls, **copy.deepcopy(init))
+    return out
+
+
+def simulate(ctx, V, script, f, init):
+    """The verdict comes from StatementSplitter.process itself when it is evaluable (state kept in process -- the previous keyword, the
+    start of a line -- takes part); the level numbers in the messages, and the verdict otherwise, from driving _change_splitlevel alone."""
+    try:
+        tr = simulate_process(ctx, V, script)
+    except (ME.Unsupported, ME.Unknown) as e:
+        ctx.info['splitter_process_not_evaluable'] = str(e)[:200]
+        return _simulate_levels(ctx, V, script, f, init)
+    ctx.info['splitter_process_simulated'] = ctx.info.get('splitter_process_simulated', 0) + 1
+    try:
+        lv = _simulate_levels(ctx, V, script, f, init)
+    except (ME.Unsupported, ME.Unknown, ME.Crash):
+        lv = None
+    if lv is not None and len(lv) == len(tr):
+        tr = [(k, sp, l2 if sp == sp2 else None, fl2 if sp == sp2 else {}) for (k, sp, _, _), (_, sp2, l2, fl2) in zip(tr, lv)]
+    return tr
+
+
+def simulate_process(ctx, V, script):
+    """The same scripts through StatementSplitter.process itself (interpreted with _reset, _change_splitlevel and whatever else it calls),
+    fed with the token stream of the script -- items one blank apart (SPELLING['sep'] inside multi-word items).  The trace has one entry per
+    terminator: (kind, a statement ends right behind it, None, {}).  Raises ME.Unsupported / ME.Unknown when process is not evaluable."""
+    repo = ctx.repo
+    cls = repo.cls(SPLITTER)
+    WSP = TT(('Text', 'Whitespace'))
+    stream, marks = [], []
+    for item in script.split():
+        final = item == ';!'
+        tok = ';' if item in (';', ';!') else item
+        tt, text = lex_item(ctx, V, tok)
+        if stream:
+            stream.append((WSP, ' '))
+        stream.append((tt, text))
+        if tok == ';':
+            marks.append((len(stream) - 1, 'final' if final else 'inner'))
+    o = ME.Obj(_cls=cls)
+    ev = ME.Evaluator(ctx, cls.methods['process'].mod, cls)
+    ev.effects = True
+    init = repo.lookup_method(cls, '__init__')
+    if init is not None:
+        ev._obj_method(o, '__init__')()
+    stmts = ev._obj_method(o, 'process')(list(stream))
+    if not isinstance(stmts, list):
+        stmts = list(stmts)
+    ends, pos = set(), 0
+    for st in stmts:
+        toks = getattr(st, 'tokens', None)
+        if not isinstance(toks, list):
+            raise ME.Unsupported('process yields something that is not a statement')
+        pos += len(toks)
+        ends.add(pos)
+    out = []
+    for idx, kind in marks:
+        # a statement ends behind this terminator if a boundary lies between it and the next significant token
+        nxt = next((j for j in range(idx + 1, len(stream)) if not WSP.contains(stream[j][0])), len(stream))
+        out.append((kind, any(idx < e <= nxt for e in ends), None, {}))
+    if pos != len(stream):
+        raise ME.Crash(f'process yields {pos} tokens for a stream of {len(stream)}')
     return out
 
 
